@@ -3,10 +3,10 @@ from .. import app, docprops, drive, engine, fixlib
 from ..oracles import cmark, fingerprint, htmlnorm
 from ..runner import Run
 
-PLAN = {"B2/53": 560, "B3/89": 280, "B4/83": 140, "N1/11": 700, "W1/2": 560, "S2": 420, "S3": 84, "I4/97": 280, "I6": 140, "H4/3": 140, "P2": 350, "R2/3": 280, "R3": 350, "K7": 420, "T4/5": 140, "Z1": 560, "Q2": 420, "P3": 420, "E1/211": 280, "M3/3": 350, "L6": 350, "G2": 280, "H6": 210, "L7": 420}
+PLAN = {"B2/53": 800, "B3/89": 400, "B4/83": 200, "N1/11": 1000, "W1/2": 800, "S2": 600, "S3": 120, "I4/97": 400, "I6": 200, "H4/3": 200, "P2": 500, "R2/3": 400, "R3": 500, "K7": 600, "T4/5": 200, "Z1": 800, "Q2": 600, "P3": 600, "E1/211": 400, "M3/3": 500, "L6": 500, "G2": 400, "H6": 300, "L7": 600}
 EVALUATOR = "vp.props.c08:ev"
 # second pass: documented configuration values of the fix-capable rules (rule alone), keyed `<universe>#cfg`
-PLAN_CFG = {"Z1#cfg": 350, "Q2#cfg": 210, "T4/5#cfg": 105, "L6#cfg": 210, "M3/3#cfg": 140, "N1/11#cfg": 280, "W1/2#cfg": 210, "B3/89#cfg": 140, "R3#cfg": 105, "H4/3#cfg": 70, "P3#cfg": 140, "G2#cfg": 210}
+PLAN_CFG = {"Z1#cfg": 500, "Q2#cfg": 300, "T4/5#cfg": 150, "L6#cfg": 300, "M3/3#cfg": 200, "N1/11#cfg": 400, "W1/2#cfg": 300, "B3/89#cfg": 200, "R3#cfg": 150, "H4/3#cfg": 100, "P3#cfg": 200, "G2#cfg": 300}
 EVALUATORS = {"#cfg": "vp.props.c08:ev_cfg"}
 RULE = (
     "documents = sub-lattices of the bounded universes on which C03's oracle holds (PyMarkdown's and the independent parser's HTML agree) and that scan cleanly; configurations: default rule set, "
